@@ -94,6 +94,9 @@ type HarnessConfig struct {
 	// the name of a Go function of the harness package with the same
 	// signature (receiver first) that is executed in its place.
 	Subst map[string]string
+	// Sched enables the cooperative scheduler (goroutines, channels, select,
+	// mutexes and wait groups of the program with the schedule a symbolic choice).
+	Sched bool
 }
 
 type PathSample struct {
@@ -389,6 +392,14 @@ func (ex *explorer) runPath(in *interpreter, sol *solver, item workItem) {
 	}
 	in.ps = ps
 	in.depth = 0
+	if ex.hc.Sched {
+		pre := 2
+		if v, ok := ex.hc.Params["PREEMPT"]; ok {
+			pre = v
+		}
+		ps.sched = newSched(in, pre)
+		defer ps.sched.finish()
+	}
 	sol.beginPath()
 	var outcome string // "", "violation", "infeasible", "budget", "unknown", "depth", "engine"
 	var viol *Violation
@@ -422,7 +433,7 @@ func (ex *explorer) runPath(in *interpreter, sol *solver, item workItem) {
 						if p.reason == "depth" {
 							msg = "call depth limit exceeded (candidate unbounded recursion)"
 						}
-						viol = &Violation{Harness: ex.hc.Func, Msg: msg, Draws: ps.currentDraws(), Hang: true}
+						viol = &Violation{Harness: ex.hc.Func, Msg: msg, Draws: ps.currentDraws(), Hang: true, Pos: ps.lastPos}
 					}
 				}
 			case engineError:
